@@ -94,7 +94,9 @@ def cargo_check(work, out_dir, crates):
     env["RUSTFLAGS"] = "-Zmir-opt-level=0 -Awarnings"
     env["RUSTC_WORKSPACE_WRAPPER"] = extract.DRIVER
     env["CARGO_TARGET_DIR"] = os.path.join(extract.CACHE, "target-corpus")
-    return subprocess.run(["cargo", "+nightly", "check", "--offline", "-q", "--lib"], cwd=work, env=env, stdout=subprocess.PIPE, stderr=subprocess.STDOUT, text=True)
+    nonce = "%d_%d" % (os.getpid(), int(time.time() * 1000))
+    return subprocess.run(["cargo", "+nightly", "rustc", "--offline", "-q", "--lib", "--profile", "check", "--", "--cfg", "rsav_nonce=\"%s\"" % nonce],
+                          cwd=work, env=env, stdout=subprocess.PIPE, stderr=subprocess.STDOUT, text=True)
 
 
 def run(run):
